@@ -1142,3 +1142,41 @@ TWINS["C18"] = [
     TW("clamp-args-reordered", (GG, "agent['x'] = max(min(agent['x'] + agentaction['x'], self.width-1), 0)", "agent['x'] = max(0, min(self.width-1, agent['x'] + agentaction['x']))")),
     TW("product-logit-commuted", (DFT, "                    logit = self.logit(si) + other.logit(oi)\n", "                    logit = other.logit(oi) + self.logit(si)\n")),
 ]
+
+# ----------------------------------------------------------------------------------- C11
+DD = C + "distributions/distributions.py"
+DDI = C + "distributions/dictdistribution.py"
+TBL = C + "table/table.py"
+MUTANTS["C11"] = [
+    M("revert-F8-get-keyerror-only", ["IFC-3"],
+      (TBL, "        except (KeyError, IndexError, DomainError):\n            return default", "        except KeyError:\n            return default")),
+    M("or-rebinding-removed", ["IFC-5"],
+      (DDI, "    __or__ = FiniteDistribution.__or__\n", "")),
+    M("or-rebound-to-dict", ["IFC-5"],
+      (DDI, "    __or__ = FiniteDistribution.__or__\n", "    __or__ = dict.__or__\n")),
+    M("joint-inner-iterator-hoisted", ["GEN-1", "ALG-2"],
+      (DD, "        return DictDistribution({\n            (a, b): pa * pb\n            for a, pa in self.items()\n            for b, pb in other.items()\n        })",
+       "        other_items = other.items()\n        return DictDistribution({\n            (a, b): pa * pb\n            for a, pa in self.items()\n            for b, pb in other_items\n        })")),
+    M("marginalize-overwrites", ["ALG-2"],
+      (DD, "            newdist[projection(e)] += p\n", "            newdist[projection(e)] = p\n")),
+    M("chain-drops-prior", ["ALG-2"],
+      (DD, "                cum_dist[new_e] += p*new_p", "                cum_dist[new_e] += new_p")),
+    M("condition-unnormalised", ["ALG-2"],
+      (DD, "        dist = {e: p/norm for e, p in dist.items()}\n", "")),
+    M("expectation-unweighted", ["ALG-2"],
+      (DD, "            tot += real_function(e)*p", "            tot += real_function(e)")),
+    M("or-ignores-other", ["ALG-2"],
+      (DD, "        for e, p in other.items():\n            newdist[e] += p\n        return DictDistribution(newdist)", "        return DictDistribution(newdist)")),
+    M("softmax-unshifted-unnormalised", ["ALG-2"],
+      (C + "distributions/softmaxdistribution.py", "dist = {e: math.exp(s - max_score) / Z for e, s in scores.items()}", "dist = {e: math.exp(s - max_score) for e, s in scores.items()}")),
+    M("sample-global-generator", ["SMP-1"],
+      (DD, "        s = rng.choices(\n            population=support,", "        s = random.choices(\n            population=support,")),
+    M("sample-weights-from-dict-values", ["SMP-1"],
+      (DD, "            weights=tuple(self.probs),", "            weights=tuple(sorted(self.probs)),")),
+    M("uniform-prob-raises", ["IFC-3"],
+      (DDI, "        if e in self._support:\n            return 1/len(self.support)\n        return 0", "        if e in self._support:\n            return 1/len(self.support)\n        raise KeyError(e)")),
+]
+TWINS["C11"] = [
+    TW("chain-factor-order", (DD, "                cum_dist[new_e] += p*new_p", "                cum_dist[new_e] += new_p*p")),
+    TW("get-handler-order", (TBL, "        except (KeyError, IndexError, DomainError):\n            return default", "        except (DomainError, IndexError, KeyError):\n            return default")),
+]
